@@ -942,6 +942,8 @@ def run(prog, ctx):
                        "and XXH64 on random inputs; the buffered-length counter of each Hasher::write is obtained as a select-tree over all paths and "
                        "checked against (entry + len) mod block for every entry value and every length up to three blocks")
     res.not_decided = "chunking independence of the buffered byte contents; the tail loops of XXH64::finish64"
+    # the Count-Min bucket: row*num_buckets + h1 % num_buckets with the full 64-bit h1 (C08.U evaluates the extracted index)
+    C.import_rules(res, prog, ctx, "C16.D.bucket", "C08", ("C08.U",), "Count-Min bucket derivation", 1)
     # the seed travels at 64 bits from the public constructors to the hashers
     C.seed_width_rule(res, prog, "C16.S")
     return res
